@@ -374,4 +374,76 @@ pub fn run(ctx: &Ctx) {
     let n = ctx.tier.pick(5000, 250_000);
     ctx.explore("forgeries", RULE, n, || strategy(12), oracle);
     ctx.replay_known("forgeries", |c: &Case| e1::without_exclusions(|| oracle(c)));
+    // complete single-fault enumeration for a fixed set of small generated circuits
+    let programs = ctx.tier.pick(6, 120) as usize;
+    let cases = enumerate_single_faults(ctx.seed, programs);
+    ctx.enumerate(
+        "single-fault-enumeration",
+        "for a fixed, seed-derived set of small programs (<= 64 ops): EVERY cell of every ALU / public / recompose row \
+(delta 1) and EVERY witness slot (in place and with propagation) is forged once; same oracle; exhaustive for those circuits",
+        cases,
+        true,
+        oracle,
+    );
+}
+
+fn enumerate_single_faults(seed: u64, programs: usize) -> Vec<Case> {
+    let strat = strategy(8);
+    let bases: Vec<Case> = crate::fw::sample_values(seed, "C04", "enum", &strat, programs);
+    let one = || Val(vec![e1::Co::One]);
+    let mut out = vec![];
+    for base in bases {
+        // sizes of the tables of this program's honest execution
+        let sizes = dispatch_field!(base.prog.field as usize, C => table_sizes::<C>(&base.prog));
+        let Some((alu_rows, pub_rows, slots, rec_std, rec_coeff)) = sizes else {
+            continue;
+        };
+        if alu_rows > 64 {
+            continue;
+        }
+        let mk = |f: Fault| Case {
+            faults: vec![f],
+            ..base.clone()
+        };
+        for r in 0..alu_rows {
+            for col in 0..4u8 {
+                out.push(mk(Fault::AluCell { row: crate::fw::unpick(r, alu_rows), col, delta: one() }));
+            }
+        }
+        for r in 0..pub_rows {
+            out.push(mk(Fault::PublicCell { row: crate::fw::unpick(r, pub_rows), delta: one() }));
+        }
+        for s in 0..slots {
+            for propagate in [false, true] {
+                out.push(mk(Fault::Slot { slot: crate::fw::unpick(s, slots), delta: one(), propagate }));
+            }
+        }
+        for (coeff_table, rows) in [(false, rec_std), (true, rec_coeff)] {
+            for r in 0..rows {
+                for col in 0..5u8 {
+                    out.push(mk(Fault::RecomposeCell { coeff_table, row: crate::fw::unpick(r, rows), col, delta: one() }));
+                }
+            }
+        }
+    }
+    out
+}
+
+fn table_sizes<C: Pv>(prog: &Prog) -> Option<(usize, usize, usize, usize, usize)> {
+    let built: Built<C> = e1::interpret::<C>(prog, e1::Excl::ALL_SAT);
+    let Built { builder, publics, privates, .. } = built;
+    let circuit = builder.build().ok()?;
+    let mut runner = circuit.runner();
+    runner.set_public_inputs(&publics).ok()?;
+    runner.set_private_inputs(&privates).ok()?;
+    let t = runner.run().ok()?;
+    let rs = forge::recompose_rows::<C>(&t, false).map_or(0, |r| r.operations.len());
+    let rc = forge::recompose_rows::<C>(&t, true).map_or(0, |r| r.operations.len());
+    Some((
+        circuit.ops.iter().filter(|o| matches!(o, p3_circuit::Op::Alu { .. })).count(),
+        circuit.ops.iter().filter(|o| matches!(o, p3_circuit::Op::Public { .. })).count(),
+        circuit.witness_count as usize,
+        rs,
+        rc,
+    ))
 }
